@@ -170,6 +170,50 @@ theorem changed_of_no_state {s : St} (h : Inv s) (t : Name) (p : Path)
       | none => simp [depMissing, hcur] at hpm
       | some cur => simp [depIs, hcur, depVerdict, hn]
 
+/-! ### the repaired loop (findings/pending/C10-readded-dep-stale-state.md) -/
+
+theorem repaired_superset (c : Checker) (d : TaskDef) (r : Rcd) (fs : FS) (resOf : Name → Option Res) (p : Path)
+    (h : p ∈ depChangedOf c d r fs resOf) : p ∈ depChangedRepaired c d r fs resOf := by
+  unfold depChangedOf at h
+  unfold depChangedRepaired
+  by_cases h1 : utdFalse r.getValues resOf d.uptodate = true
+  · rw [if_pos h1] at h; simp at h
+  · rw [if_neg h1] at h ⊢
+    by_cases h2 : (d.deps.isEmpty && !utdEvaluated r.getValues resOf d.uptodate) = true
+    · rw [if_pos h2] at h; simp at h
+    · rw [if_neg h2] at h ⊢
+      by_cases h3 : d.targets.any (depMissing fs) = true
+      · rw [if_pos h3] at h ⊢; exact h
+      · rw [if_neg h3] at h ⊢
+        by_cases h4 : checkerChanged c r = true
+        · rw [if_pos h4] at h ⊢; exact h
+        · rw [if_neg h4] at h ⊢
+          rw [List.mem_filter] at h ⊢
+          exact ⟨h.1, by simp [h.2]⟩
+
+theorem repaired_new_dep {s : St} (h : Inv s) (t : Name) (p : Path) (e : Exec)
+    (hF : falseItemAt s t = false) (hp : p ∈ (s.defs t).deps) (hs : s.shadow t = some e) (hn : p ∉ e.deps) :
+    p ∈ (kwargsRepaired s t).changed := by
+  have hres := resOf_eq_specRes h
+  have hval := getValues_eq_last h t
+  have hag := h.agree t
+  rw [hs] at hag
+  unfold falseItemAt at hF
+  simp only [kwargsRepaired, depChangedRepaired, hval, hres, hF, Bool.false_eq_true, if_false]
+  have hne : (s.defs t).deps.isEmpty = false := by
+    cases hd : (s.defs t).deps with
+    | nil => rw [hd] at hp; simp at hp
+    | cons a l => rfl
+  simp only [hne, Bool.false_and, Bool.false_eq_true, if_false]
+  split
+  · exact hp
+  · split
+    · exact hp
+    · rw [List.mem_filter]
+      refine ⟨hp, ?_⟩
+      have : depNotPrev (s.rcd t) p = true := by simp [depNotPrev, hag.2.2.2.1, hn]
+      simp [this]
+
 /-- a file dependency that differs from what the last recorded execution saw makes the task not up-to-date -/
 theorem needed_not_uptodate {s : St} (h : Inv s) (t : Name) (p : Path)
     (hp : p ∈ (s.defs t).deps) (hn : needsAt s t p = true) : s.status true t ≠ .upToDate := by
